@@ -447,13 +447,15 @@ class Walker:
                 self.scan_expr(e, st)
 
 
-def run(ctx, res):
+def restore_sites(ctx, res=None):
+    """every RestoreValues construction / saved-value hand-off with the symbolic pop and restore sequences (shared with C04)."""
     sh = ctx.shape
     items = S.file_items(sh, EVAL)
     fns = []
     S._fns_in(items, fns)
     targets = [fn for impl, fn, test in fns if not test and "RestoreValues" in fn.get("ret", "")]
-    res.floor("RESTORE-SEQ", "functions returning (RestoreValues, EvalError)", len(targets), 20)
+    if res is not None:
+        res.floor("RESTORE-SEQ", "functions returning (RestoreValues, EvalError)", len(targets), 20)
     # helpers that wrap a saved-values parameter into RestoreValues
     helpers = {}
     for fn in targets:
@@ -470,7 +472,8 @@ def run(ctx, res):
             continue
         if "EvalError" in fn.get("ret", "") and has_pop(fn["body"]):
             poppers.add(fn["name"])
-    res.extra["fallible_poppers_outside_the_protocol"] = sorted(poppers)
+    if res is not None:
+        res.extra["fallible_poppers_outside_the_protocol"] = sorted(poppers)
     all_sites = []
     inheritors = set()
     for fn in targets:
@@ -493,6 +496,11 @@ def run(ctx, res):
                 s["ok"] = True
                 s["passthrough"] = True
         all_sites += w.sites
+    return all_sites, inheritors, helpers, sh
+
+
+def run(ctx, res):
+    all_sites, inheritors, helpers, sh = restore_sites(ctx, res)
     res.floor("RESTORE-SEQ", "RestoreValues constructions / saved-value hand-offs", len(all_sites), 100)
     # ordinal per (fn, arm)
     counters = {}
@@ -685,7 +693,7 @@ def run(ctx, res):
                     "failed return-type check then answers Unit instead of repeating the error", f.loc())
     else:
         res.ok("RESUME-ENTRY", "eval::eval has no return that bypasses its loop")
-    res.extra.update({"sites": len(all_sites), "wrong_sites": n_bad, "functions_analysed": len(targets)})
+    res.extra.update({"sites": len(all_sites), "wrong_sites": n_bad, "functions_analysed": len({x["fn"] for x in all_sites})})
     res.explanation = (
         "RESTORE-SEQ walks every function returning (RestoreValues, EvalError) and tracks two symbolic sequences: the values "
         "popped so far (named let-bound pops; `for .. { args.push(pop) }` as a forward segment) and the contents of the vector "
